@@ -198,6 +198,9 @@ def run(ck, ctx):
                   build_kw=dict(group=g, tier=ck.tier, final=("shape",), final_modes=["sql", OWNER[g]])) for g in GROUPS]
     jobs += [dict(module="entities", only_rules={"O-final"}, build_kw=dict(tier=ck.tier))]      # incl. DROP TABLE: still a full table entry
     run_fragments(ck, ctx, jobs)
+    # ---- the shape after SEVERAL ALTER statements on one table (ADD column, RENAME, DROP, FOREIGN KEY / UNIQUE on the new names)
+    from ..specs.alter import check_sequences
+    check_sequences(ck, ctx, rule="O-shape")
     ck.assumptions += ["json.dumps encodes dict / list / tuple / str / int / float / bool / None (CPython)",
                        "declined: `primary_key lists names of that table's columns` (value-level)",
                        "reviewed: prepare_alter_columns can append a reference-only column record for an ALTER naming a column the table "
